@@ -92,6 +92,13 @@ def r03_1(run, model):
         for e in ev:
             k = e[0]
             if k == "gate":
+                # the gate has to test the Diagnostics value the pending stage wrote to (when that is known)
+                if last_prod is not None and last_prod[2] and e[2] not in last_prod[2]:
+                    n += 1
+                    run.ob("R03.1", f"{name}|gate after {last_prod[1]} tests that stage's diagnostics", False, site(rel, [e[1]]),
+                           f"`{e[2]}.has_errors()` is tested, but {last_prod[1]} reports into {sorted(last_prod[2])}",
+                           witness="build of a package with a non-exhaustive integer match succeeds (the gate looks at the type checker's diagnostics); whole-program compilation rejects it")
+                    continue
                 last_prod = None
                 continue
             if k in ("matchc", "backend", "ok") and last_prod is not None and not (k == "matchc" and last_prod[0] == "matchc"):
@@ -104,7 +111,7 @@ def r03_1(run, model):
                 prev = [x for x in ev if x[1] < e[1] and x[0] in ("typecheck", "matchc")][-1]
                 run.ob("R03.1", f"{name}|{prev[2]} -> {e[2]}", True, site(rel, [e[1]]), f"gate between {prev[2]} and {e[2]}")
             if k in ("typecheck", "matchc"):
-                last_prod = (k, e[2])
+                last_prod = (k, e[2], set(e[3]) if len(e) > 3 else set())
         if name == "link_cores":
             # duplicate-impl diagnostics are gated before the back end
             g = [e for e in ev if e[0] == "gate"]
